@@ -104,7 +104,7 @@ def gen_storage_spec(rnd):
     return ("batch", tg)
 
 
-def gen_cfg(rnd, explainer, exact):
+def gen_cfg(rnd, explainer, exact, allow_discontinuous=False):
     dyn = rnd.random() < 0.6
     if exact:
         alpha = rnd.choice([Q(1, 1000), Q(1, 3), Q(1, 2), 1, Q(rnd.randrange(1, 1000), 1000), 0.25, 0.5, 1.0])  # floats: 1-alpha exact
@@ -131,12 +131,19 @@ def gen_cfg(rnd, explainer, exact):
         "out_type": "plain" if exact else rnd.choice(["plain", "plain", "np64", "int", "np0d"]),   # NumPy scalars as model outputs / loss values
         "label_keys": rnd.choice(["int", "int", "str"]),                                     # keys of multi-label outputs
         "x_type": rnd.choice(["dict", "dict", "OrderedDict", "subclass"]),                   # observations as dict subclasses
+        "memo_model": rnd.random() < 0.25,                                                   # model hands out cached dict objects
     }
+    # a 0-1 loss returning Python bools is discontinuous: usable where no float reference is compared (C01's self-consistency
+    # identity) and in exact dynamic mode (bool/int arithmetic stays exact under exponential smoothing with a rational alpha)
+    if rnd.random() < 0.12 and ((not exact and allow_discontinuous) or (exact and dyn and not isinstance(alpha, float))):
+        cfg["loss"] = "zero-one"
     if rnd.random() < 0.04 and not exact:            # long stream: the default / size-100 storages fill up and start replacing
         cfg["steps"] = rnd.choice([130, 260])
         cfg["storage"] = rnd.choice([("uniform", 100, False), ("geometric", 100, None, False), ("interval", 100, True)])
         cfg["d"] = min(cfg["d"], 3)
         cfg["n_inner"] = min(cfg["n_inner"], 2)
+        cfg["model"] = rnd.choice(["phase", "phase", cfg["model"]])      # a model that only becomes informative after ~40 observations
+        cfg["extras"] = 0
     if cfg["model"] == "positional":
         cfg["shuffle_keys"] = False
     if cfg["model"] in ("multi", "grow") and cfg["loss"] in ("sq", "abs") and not exact:
@@ -157,6 +164,8 @@ class Scenario:
         self.names0 = list(self.names)
         self.model = Models(cfg["model"], self.names, exact=cfg["exact"], clock=self.clock,
                             out_type=cfg.get("out_type", "plain"), label_keys=cfg.get("label_keys", "int"))
+        if cfg.get("memo_model"):
+            self.model.memo = {}
         self.loss = Losses(cfg["loss"], exact=cfg["exact"], clock=self.clock, out_type=cfg.get("out_type", "plain"))
         loss_fn = self.loss
         if strict_loss:
@@ -187,7 +196,8 @@ class Scenario:
             self.imputer = None
         else:
             self.imputer = ImputerProxy(real, self.clock) if record_imputer else real
-        kw = dict(storage=self.storage, imputer=self.imputer, n_inner_samples=cfg["n_inner"],
+        kw = dict(storage=self.storage, imputer=self.imputer,
+                  n_inner_samples=(np.int64(cfg["n_inner"]) if seed % 5 == 0 else cfg["n_inner"]),
                   dynamic_setting=cfg["dyn"])
         if cfg.get("pass_alpha", True):
             kw["smoothing_alpha"] = cfg["alpha"]
@@ -221,7 +231,8 @@ class Scenario:
         if self.cfg.get("vary_calls") and self.t > 0:
             r = self.rnd.random()
             if r < 0.2:
-                kw["n_inner_samples"] = self.rnd.choice([1, 2, 3] if self.cfg["exact"] else [1, 2, 4])
+                n = self.rnd.choice([1, 2, 3] if self.cfg["exact"] else [1, 2, 4])
+                kw["n_inner_samples"] = self.rnd.choice([int, int, np.int64, np.int32])(n)    # NumPy integers are integers too
             r = self.rnd.random()
             if r < 0.2:
                 kw["update_storage"] = False
